@@ -13,8 +13,18 @@
   `std::map<std::string, T>` is modelled as an association list kept strictly sorted by key
   (`upsert` = `operator[]` followed by a modification / assignment, iteration = list order, `find?` = `find`).
   The scalar type is abstract: `+ - 0 <` and an `abs` function passed explicitly (core Lean only).
+
+  Round 5: WHICH member of WHICH epoch's record the loops of `GamaLocalDeformation::init()` read and write is
+  no longer written by hand: `put1`/`put2` interpret the regenerated assignment list `Gen.DeformSites.fills`
+  (`rec.indx1 = p1.indx; …`) and `t1Of`/`t2Of` interpret the regenerated blocks `Gen.DeformSites.blocks`
+  (`if (r.second.indx1 && r.second.indx2) { t1.push_back( r.second.indx1 ); … }`), both produced by
+  tools/gen/c12_deform.py from lib/gnu_gama/local/deformation.cpp on every run.  The closed forms the lemmas
+  work with (`put1_def`, `put2_def`, `t1Of_def`, `t2Of_def` in Lemmas/Consumers.lean) are proved from the
+  generated tables, so a changed site (seeded/C12-seed3: `t2.push_back( r.second.indz1 )`) breaks them.
 -/
+import Gama.Gen.DeformSites
 namespace Gama.Consumers
+open Gama.Gen.DeformSites (Kind Coord Ref Fill Push Block)
 
 /-- `LocalNetworkAdjustmentResults::Point` as far as the consumers look at it -/
 structure APoint (ι K : Type) where
@@ -161,27 +171,63 @@ structure Epoch (ι K : Type) where
 section Deformation
 variable {ι K : Type} [LT ι] [DecidableRel (α := ι) (· < ·)] [DecidableEq ι] [Zero K]
 
+/-- the field `p.<kind><coord>` of an adjusted point -/
+def APoint.indOf (p : APoint ι K) : Coord → Nat
+  | .x => p.indx | .y => p.indy | .z => p.indz
+def APoint.valOf (p : APoint ι K) : Coord → K
+  | .x => p.x | .y => p.y | .z => p.z
+
+/-- the record members by name: `ind<c><e>` / `<c><e>` (epoch suffix 1, otherwise 2) -/
+def Rec12.ind (r : Rec12 K) (g : Ref) : Nat :=
+  match g.coord, g.epoch with
+  | .x, 1 => r.indx1 | .y, 1 => r.indy1 | .z, 1 => r.indz1
+  | .x, _ => r.indx2 | .y, _ => r.indy2 | .z, _ => r.indz2
+
+def Rec12.setInd (r : Rec12 K) (c : Coord) (e : Nat) (v : Nat) : Rec12 K :=
+  match c, e with
+  | .x, 1 => { r with indx1 := v } | .y, 1 => { r with indy1 := v } | .z, 1 => { r with indz1 := v }
+  | .x, _ => { r with indx2 := v } | .y, _ => { r with indy2 := v } | .z, _ => { r with indz2 := v }
+
+def Rec12.setVal (r : Rec12 K) (c : Coord) (e : Nat) (v : K) : Rec12 K :=
+  match c, e with
+  | .x, 1 => { r with x1 := v } | .y, 1 => { r with y1 := v } | .z, 1 => { r with z1 := v }
+  | .x, _ => { r with x2 := v } | .y, _ => { r with y2 := v } | .z, _ => { r with z2 := v }
+
+/-- one generated assignment `rec.<dst> = p.<src>` (the translator refuses an index := coordinate mix) -/
+def applyFill (p : APoint ι K) (r : Rec12 K) (f : Fill) : Rec12 K :=
+  match f.dst.kind, f.srcKind with
+  | .ind, .ind => r.setInd f.dst.coord f.dst.epoch (p.indOf f.srcCoord)
+  | .val, .val => r.setVal f.dst.coord f.dst.epoch (p.valOf f.srcCoord)
+  | _, _ => r
+
+/-- loop `k` of `init`: `auto& rec = adjrec12[pk.id];` then the generated assignments of that loop in order -/
+def putGen (k : Nat) (p : APoint ι K) (o : Option (Rec12 K)) : Rec12 K :=
+  (Gama.Gen.DeformSites.fills.filter (fun f => f.loop == k)).foldl (applyFill p) (o.getD Rec12.zero)
+
 /-- first loop of `init`: `rec = adjrec12[p1.id]; rec.indx1 = p1.indx; rec.x1 = p1.x; …` -/
-def put1 (p : APoint ι K) (o : Option (Rec12 K)) : Rec12 K :=
-  let r := o.getD Rec12.zero
-  { r with indx1 := p.indx, x1 := p.x, indy1 := p.indy, y1 := p.y, indz1 := p.indz, z1 := p.z }
+def put1 (p : APoint ι K) (o : Option (Rec12 K)) : Rec12 K := putGen 1 p o
 
 /-- second loop of `init` -/
-def put2 (p : APoint ι K) (o : Option (Rec12 K)) : Rec12 K :=
-  let r := o.getD Rec12.zero
-  { r with indx2 := p.indx, x2 := p.x, indy2 := p.indy, y2 := p.y, indz2 := p.indz, z2 := p.z }
+def put2 (p : APoint ι K) (o : Option (Rec12 K)) : Rec12 K := putGen 2 p o
 
 def adjrec12 (e1 e2 : List (APoint ι K)) : List (ι × Rec12 K) :=
   e2.foldl (fun m p => upsert p.id (put2 p) m) (e1.foldl (fun m p => upsert p.id (put1 p) m) [])
 
-/-- entries one record appends to `t1` : `if (indx1 && indx2) {indx1, indy1}`, `if (indz1 && indz2) {indz1}` -/
-def t1Of (r : Rec12 K) : List Nat :=
-  (if r.indx1 ≠ 0 ∧ r.indx2 ≠ 0 then [r.indx1, r.indy1] else []) ++
-  (if r.indz1 ≠ 0 ∧ r.indz2 ≠ 0 then [r.indz1] else [])
+/-- what one record appends to `t<target>` under a table of blocks: for every block whose guard members are all
+    non-zero (`if (r.second.A && r.second.B)`), its `t<target>.push_back( r.second.M )` in source order -/
+def tOfWith (bs : List Block) (target : Nat) (r : Rec12 K) : List Nat :=
+  bs.flatMap (fun b =>
+    if b.guard.all (fun g => r.ind g != 0) then
+      (b.pushes.filter (fun q => q.target == target)).map (fun q => r.ind q.src)
+    else [])
 
-def t2Of (r : Rec12 K) : List Nat :=
-  (if r.indx1 ≠ 0 ∧ r.indx2 ≠ 0 then [r.indx2, r.indy2] else []) ++
-  (if r.indz1 ≠ 0 ∧ r.indz2 ≠ 0 then [r.indz2] else [])
+/-- … under the table regenerated from deformation.cpp -/
+def tOf (target : Nat) (r : Rec12 K) : List Nat := tOfWith Gama.Gen.DeformSites.blocks target r
+
+/-- entries one record appends to `t1` (code: `if (indx1 && indx2) {indx1, indy1}`, `if (indz1 && indz2) {indz1}`) -/
+def t1Of (r : Rec12 K) : List Nat := tOf 1 r
+
+def t2Of (r : Rec12 K) : List Nat := tOf 2 r
 
 /-- `t1` / `t2` without the leading 0 : the C++ `t1[i]` (1-based) is `(t1List m).getD (i-1) 0` -/
 def t1List (m : List (ι × Rec12 K)) : List Nat := m.flatMap (fun a => t1Of a.2)
